@@ -192,12 +192,46 @@ func runC01(c *Ctx) {
 				// the next statement on this path must stop the iteration: return false
 				_, exits := lit.Reach(as, nil, nil)
 				stops := len(exits) > 0
+				// the value returned after an adoption is false: the constant, or an expression
+				// that is false given that the interval test held (the adoption is reachable only
+				// under it): `return !precedes`
+				underTest := func(e ast.Expr) (bool, bool) {
+					e = ast.Unparen(e)
+					if e == ast.Expr(s3.call) {
+						return true, true
+					}
+					if v := lit.varOf(e); v != nil {
+						if defs := lit.defsOf(v); len(defs) == 1 && !defs[0].multi && defs[0].rhs != nil && ast.Unparen(defs[0].rhs) == ast.Expr(s3.call) {
+							return true, true
+						}
+					}
+					if cv, ok := lit.ConstVal(e); ok {
+						return cv == "true", true
+					}
+					// `result == nil` right after `result = f`: f is not nil, the interval test
+					// called f.ID() on this very path
+					if be, ok := e.(*ast.BinaryExpr); ok && (be.Op == token.EQL || be.Op == token.NEQ) && isNilIdent(lit.Info, be.Y) {
+						if v := lit.varOf(be.X); v != nil && v == lit.varOf(as.Lhs[0]) {
+							derefd := false
+							ast.Inspect(s3.call, func(m ast.Node) bool {
+								if se, ok := m.(*ast.SelectorExpr); ok && lit.varOf(se.X) != nil && lit.varOf(se.X) == lit.varOf(as.Rhs[0]) {
+									derefd = true
+								}
+								return true
+							})
+							if derefd {
+								return be.Op == token.NEQ, true
+							}
+						}
+					}
+					return false, false
+				}
 				for _, ex := range exits {
 					if ex.Ret == nil || len(ex.Ret.Results) != 1 {
 						stops = false
 						continue
 					}
-					if v, ok := lit.ConstVal(ex.Ret.Results[0]); !ok || v != "false" {
+					if v, known := evalBool3(ex.Ret.Results[0], underTest); !known || v {
 						stops = false
 					}
 				}
